@@ -52,11 +52,21 @@ JudgePair(preM, preS, s, own) ==
 RECURSIVE TallyPairs(_, _, _, _, _, _, _)
 TallyPairs(tally, preM, preS, steps, i, g, own) == IF i > Len(steps) THEN tally
    ELSE TallyPairs(UpdAll(tally, JudgePair(preM, preS, steps[i], own), g * 1000 + i), preM, preS, steps, i + 1, g, own)
+\* chain records (k = "ph"): a history run on both backends side by side, every step judged from the previous step's post-states
+RECURSIVE TallyChainP(_, _, _, _, _, _, _)
+TallyChainP(tally, preM, preS, steps, i, g, own) == IF i > Len(steps) THEN tally
+   ELSE LET s == steps[i]
+            postM == IF s.mem.same = "t" THEN preM ELSE AbsOf(s.mem.post)
+            postS == IF s.std.same = "t" THEN preS ELSE AbsOf(s.std.post)
+            j == JudgePair(preM, preS, s, own) IN
+        IF j[1][1] = "BAD" THEN UpdAll(tally, j, g * 1000 + i)            \* the rest of the history starts from diverged states
+        ELSE TallyChainP(UpdAll(tally, j, g * 1000 + i), postM, postS, steps, i + 1, g, own)
 TallyRec(tally, r, g) ==
    LET vm == RepViolation(r.memtree)  vs == RepViolation(r.tree) IN
    IF vm # "-" \/ vs # "-" THEN Upd(tally, <<"skip", "pre-tree-illformed", vm, vs>>, g * 1000)
    ELSE LET preM == AbsOf(r.memtree)  preS == AbsOf(r.tree) IN
         IF ~TreeSame(preM, preS) THEN Upd(tally, <<"BAD", "harness", "the two backends were not set up with the same tree">>, g * 1000)
+        ELSE IF r.k = "ph" THEN TallyChainP(tally, preM, preS, r.steps, 1, g, r.own)
         ELSE TallyPairs(tally, preM, preS, r.steps, 1, g, r.own)
 
 VARIABLES l
